@@ -746,6 +746,21 @@ def check_forwarders(run, cx, cfg, only=None):
                 bad = 'expected one loop over the given iterator'
                 break
             nk = loops[0]['next']
+            # the loop must run over the given iterator itself, untouched: nothing but `into_iter` between the argument
+            # and the loop, and no other call that could consume items (`nth`, `skip`, `next` outside the loop ...)
+            it = loops[0]['iter']
+            conv = []
+            while it[0] == 'ret' and p['events'][it[1]]['kind'] == 'call' and p['events'][it[1]]['name'] == 'into_iter' and len(p['events'][it[1]]['args']) == 1:
+                conv.append(it[1])
+                it = p['events'][it[1]]['args'][0]
+            if it != ('param', 2):
+                bad = 'the loop must iterate the given iterator itself (iterates %s): [%s]' % (short(it), describe_path(p))
+                break
+            pure = ('core::iter::traits::iterator::Iterator::size_hint', adt + '::<S>::max_len', adt + '::<S>::len', 'core::iter::traits::exact_size::ExactSizeIterator::len')
+            other = [rp(e) for k, e in call_events(p) if k not in conv and k != nk and rp(e) != push and rp(e) not in pure]
+            if other:
+                bad = 'besides one next() per pass and the push nothing may touch the iterator or the buffer (calls %s): [%s]' % (', '.join(sorted(set(other))), describe_path(p))
+                break
             d = dict(cond_facts(p)).get(('discr', ('ret', nk)))
             if d == ('int', 1, 'isize'):
                 if len(pushes) != 1 or pushes[0][1]['args'] != [('ref', (('P', ('param', 1)), ())), ('field', ('variant', ('ret', nk), 1), 0)]:
